@@ -3,6 +3,7 @@ package main
 // NM — pointer pseudo-names (DESIGN.md §3.11, property C15).
 
 import (
+	"os"
 	"fmt"
 	"go/token"
 	"strings"
@@ -37,6 +38,12 @@ func runNM(c *Ctx) (obls []Obl) {
 		argN := visit.Params[0].Name()
 		for _, p := range x.Paths {
 			pos := pathPos(p, visit)
+			if os.Getenv("PPCHECK_NM_DUMP") != "" {
+				fmt.Fprintf(os.Stderr, "NM path lits=%s\n", litsString(p))
+				for _, ev := range p.Events {
+					fmt.Fprintf(os.Stderr, "   %s\n", ev.String())
+				}
+			}
 			isPtr, have := p.lit(argN + ".IsPtr")
 			var ups []Event
 			for _, ev := range p.Events {
@@ -54,6 +61,9 @@ func runNM(c *Ctx) (obls []Obl) {
 					a.bad("NM-visit", "visitor/ptr-only", "a value that is not a pointer is entered in the table", pos)
 				}
 			default:
+				if done := nmVisitPtrForm(a, p, ups, argN, pos); done {
+					continue
+				}
 				if len(ups) != 1 {
 					a.bad("NM-visit", "visitor/record", fmt.Sprintf("%d table updates for one pointer argument", len(ups)), pos)
 					continue
@@ -78,12 +88,16 @@ func runNM(c *Ctx) (obls []Obl) {
 					}
 				}
 				okPrim := false
+				otherKey := ""
 				if inPrim != nil {
 					// path sensitive: old.inPrimary true -> true; else primary
 					oldT, haveOld := false, false
 					for _, lt := range p.Lits {
 						if lt.Atom.Op == OpField && lt.Atom.Name == "inPrimary" && lt.Atom.Args[0].Op == OpLookup {
 							oldT, haveOld = lt.Pol, true
+							if len(lt.Atom.Args[0].Args) > 1 && lt.Atom.Args[0].Args[1].String() != argN+".Value" {
+								otherKey = lt.Atom.Args[0].Args[1].String()
+							}
 						}
 					}
 					if v, isC := inPrim.boolConst(); isC && v && haveOld && oldT {
@@ -101,7 +115,9 @@ func runNM(c *Ctx) (obls []Obl) {
 				} else {
 					a.bad("NM-visit", "visitor/record", fmt.Sprintf("a pointer argument must be recorded as objects[arg.Value].args = append(objects[arg.Value].args, arg) (key ok=%v, list ok=%v)", okKey, okArgs), pos)
 				}
-				if okPrim {
+				if okPrim && otherKey != "" {
+					a.bad("NM-visit", "visitor/inPrimary", "the 'already seen in the first goroutine' flag is read from the entry of "+otherKey+", not from the entry of the argument's own value", pos)
+				} else if okPrim {
 					a.ok("NM-visit", "visitor/inPrimary", "a value is marked as seen in the first goroutine once it was seen there (OR-accumulated)", pos)
 				} else {
 					got := "<unset>"
@@ -426,7 +442,7 @@ func nmIsPtrPure(c *Ctx, a *flAgg) {
 						a.ok("NM-isptr", key, "IsPtr copied", st.Pos())
 						continue
 					}
-					if f == fn {
+					if f == fn || coveredBy(f, fn, map[*ssa.Function]bool{}) {
 						// phi(false, v < ceiling) guarded by v > floor, with the same v stored in Value
 						if okPtrFormula(st) {
 							a.ok("NM-isptr", key, "IsPtr = (Value > pointerFloor && Value < pointerCeiling): a function of the value only", st.Pos())
@@ -495,4 +511,105 @@ func okPtrFormula(st *ssa.Store) bool {
 		return isCmp(v, token.LSS) || isCmp(v, token.GTR)
 	}
 	return false
+}
+
+// nmVisitPtrForm: the table holds pointers to its entries (map[uint64]*object):
+// a missing entry is allocated and stored under the argument's value, then
+// the entry - new or found - gets the argument appended and its flag
+// OR-accumulated in place. Returns false when the path is not of this form.
+func nmVisitPtrForm(a *flAgg, p *Path, ups []Event, argN string, pos token.Pos) bool {
+	var look *Expr
+	isNil := false
+	for _, lt := range p.Lits {
+		at := lt.Atom
+		if at.Op == OpBin && at.Tok == token.EQL && len(at.Args) == 2 && at.Args[1].isNilConst() && at.Args[0].Op == OpLookup && len(at.Args[0].Args) > 1 && at.Args[0].Args[1].String() == argN+".Value" {
+			look, isNil = at.Args[0], lt.Pol
+		}
+	}
+	if look == nil {
+		return false
+	}
+	target := look.String()
+	okRec := true
+	why := ""
+	if isNil {
+		if len(ups) != 1 || ups[0].Key.String() != argN+".Value" || !strings.HasPrefix(ups[0].Val.String(), "&") {
+			okRec, why = false, "a value seen for the first time is not entered under its own value with a new entry"
+		} else {
+			target = strings.TrimPrefix(ups[0].Val.String(), "&")
+		}
+	} else if len(ups) != 0 {
+		okRec, why = false, "the entry of a value seen before is replaced"
+	}
+	var argsSt, primSt *Event
+	for i, ev := range p.Events {
+		if ev.Kind != EvStore {
+			continue
+		}
+		ad, _ := stripAddr(ev.Addr.String())
+		switch ad {
+		case target + ".args":
+			argsSt = &p.Events[i]
+		case target + ".inPrimary":
+			primSt = &p.Events[i]
+		}
+	}
+	if okRec {
+		okArgs := false
+		if argsSt != nil && argsSt.Val.Op == OpBuiltin && argsSt.Val.Name == "append" && len(argsSt.Val.Args) == 2 && argsSt.Val.Args[1].Op == OpSlice {
+			elem := p.Cells[argsSt.Val.Args[1].Args[0].String()+"[0]"]
+			base := argsSt.Val.Args[0]
+			okBase := base.isNilConst() && isNil || base.String() == target+".args"
+			if elem != nil && elem.Op == OpParam && elem.Name == argN && okBase {
+				okArgs = true
+			}
+		}
+		if !okArgs {
+			okRec, why = false, "the argument is not appended to the list of its entry"
+		}
+	}
+	if okRec {
+		a.ok("NM-visit", "visitor/record", "every pointer argument is appended to the list of its value (entries held by pointer, allocated at the first occurrence)", pos)
+	} else {
+		a.bad("NM-visit", "visitor/record", "a pointer argument must be recorded in the entry of its own value: "+why, pos)
+	}
+	// inPrimary: true stays true, otherwise the current goroutine's flag
+	oldT, haveOld := false, false
+	for _, lt := range p.Lits {
+		if lt.Atom.String() == target+".inPrimary" {
+			oldT, haveOld = lt.Pol, true
+		}
+	}
+	okPrim := false
+	if primSt != nil {
+		v := primSt.Val
+		isPrimary := false
+		if ad := loadOf(v); ad != nil && ad.Op == OpFreeVar && ad.Name == "primary" {
+			isPrimary = true
+		}
+		switch {
+		case isNil && isPrimary:
+			okPrim = true
+		case !isNil && haveOld && oldT:
+			if b, isC := v.boolConst(); isC && b {
+				okPrim = true
+			}
+		case !isNil && haveOld && !oldT && isPrimary:
+			okPrim = true
+		case v.Op == OpBin && (v.Tok == token.OR || v.Tok == token.LOR):
+			okPrim = true
+		}
+	} else if !isNil && haveOld && oldT {
+		okPrim = true // nothing to change
+	}
+	if okPrim {
+		a.ok("NM-visit", "visitor/inPrimary", "a value is marked as seen in the first goroutine once it was seen there (OR-accumulated in place)", pos)
+	} else {
+		got := "<unset>"
+		if primSt != nil {
+			got = primSt.Val.String()
+		}
+		a.bad("NM-visit", "visitor/inPrimary", "inPrimary must be (already seen in the first goroutine || now in the first goroutine); it is "+got+": pointers of the crashing goroutine that recur later would be numbered after pointers that never appear in it", pos)
+	}
+	return true
 }
